@@ -28,7 +28,7 @@ import (
 
 // LCase is one fault scenario.
 type LCase struct {
-	Kind   string   `json:"kind"`           // "fault" | "lockorder"
+	Kind   string   `json:"kind"`           // "fault" | "lockorder" | "end" (clean end of the RPC, see end.go)
 	Burst  []uint64 `json:"burst"`          // ids of the requests queued (one operation each)
 	Side   string   `json:"side"`           // send | recv | none
 	K      int      `json:"k"`              // message index of the fault
@@ -37,6 +37,10 @@ type LCase struct {
 	Mode   string   `json:"mode"`           // close | reset
 	Slow   bool     `json:"slow"`           // send side: the failing Send is slow (the application gets ahead)
 	Iter   int      `json:"iter,omitempty"` // lockorder: repetitions
+	// end: the first First requests of the burst are queued before the server ends the RPC with status OK
+	// (K of them answered), the others afterwards; Early: AwaitConverged is already running when it ends
+	First int  `json:"first,omitempty"`
+	Early bool `json:"early,omitempty"`
 }
 
 // Outcome is the terminal outcome class of a scenario.
@@ -73,7 +77,11 @@ func (c LCase) coq(o Outcome) string {
 	if c.Mode == "reset" {
 		mode = "MReset"
 	}
-	return fmt.Sprintf("mklcase %s %d %s %d %s %s (%s)", bcoq(c.Kind != "lockorder"), len(c.Burst), side, c.K, mode, bcoq(c.Slow && c.Side == "send"), o.coq())
+	if c.Kind == "end" {
+		first, answered := c.endShape()
+		return fmt.Sprintf("mklcase true %d FEnd %d %s false %d (%s)", len(c.Burst), answered, mode, first, o.coq())
+	}
+	return fmt.Sprintf("mklcase %s %d %s %d %s %s 0 (%s)", bcoq(c.Kind != "lockorder"), len(c.Burst), side, c.K, mode, bcoq(c.Slow && c.Side == "send"), o.coq())
 }
 
 // clientGoroutines returns the stacks of the goroutines that are inside the client package, and how
@@ -545,9 +553,40 @@ func genCases(r *drv.Rng, n int, tier string) []LCase {
 		}
 	}
 	cases = append(cases, LCase{Kind: "fault", Burst: burst(5), Side: "none", Mode: "close"}, LCase{Kind: "fault", Burst: burst(9), Side: "none", Mode: "reset"})
+	// the server ends the RPC with status OK while requests are unanswered and the sender is idle; further
+	// requests afterwards (1, up to the channel capacity, beyond it); also nothing unanswered / nothing further
+	ends := [][3]int{{2, 1, 0}, {3, 1, 0}, {4, 3, 2}, {8, 2, 1}, {12, 5, 3}, {12, 1, 0}, {9, 8, 1}, {7, 0, 0}, {3, 2, 2}, {4, 4, 2}, {5, 5, 5}}
+	if tier != "quick" {
+		seen := map[[3]int]bool{}
+		for _, e := range ends {
+			seen[e] = true
+		}
+		for sz := 1; sz <= 12; sz++ {
+			for first := 0; first <= sz; first++ {
+				for _, ans := range []int{0, first / 2, first - 1, first} {
+					e := [3]int{sz, first, ans}
+					// nothing further and something unanswered: AwaitConverged runs into its context (300 ms): a few only
+					if ans < 0 || seen[e] || (first == sz && ans < first && sz > 3) {
+						continue
+					}
+					seen[e] = true
+					ends = append(ends, e)
+				}
+			}
+		}
+	}
+	for i, e := range ends {
+		cases = append(cases, LCase{Kind: "end", Burst: burst(e[0]), Side: "end", First: e[1], K: e[2], Mode: []string{"close", "reset"}[i%2], Early: i%3 == 2})
+	}
 	// random part
 	for i := 0; i < n; i++ {
 		sz := 1 + r.Intn(12)
+		if r.Chance(1, 4) {
+			sz++ // 2..13
+			first := 1 + r.Intn(sz-1)
+			cases = append(cases, LCase{Kind: "end", Burst: burst(sz), Side: "end", First: first, K: r.Intn(first), Mode: drv.Pick(r, "close", "reset"), Early: r.Chance(1, 3)})
+			continue
+		}
 		c := LCase{Kind: "fault", Burst: burst(sz), Side: drv.Pick(r, "send", "send", "recv"), Mode: drv.Pick(r, "close", "reset"), Code: drv.Pick(r, codeClasses...)}
 		c.K = r.Intn(sz + 1)
 		if c.Side == "send" {
@@ -566,6 +605,10 @@ func genCases(r *drv.Rng, n int, tier string) []LCase {
 }
 
 func caseKey(c LCase) string {
+	if c.Kind == "end" {
+		first, answered := c.endShape()
+		return fmt.Sprintf("end/%d/%d/%d/%s/%v", len(c.Burst), first, answered, c.Mode, c.Early)
+	}
 	return fmt.Sprintf("%s/%d/%s/%d/%s/%v/%s", c.Kind, len(c.Burst), c.Side, c.K, c.Mode, c.Slow, c.Inject)
 }
 
@@ -593,7 +636,7 @@ func runC14(args []string) error {
 	}
 	run := &lrunner{f: fab}
 	rep := drv.Report{Property: "C14", Seed: *f.Seed, Shard: drv.ShardSize, Stats: map[string]int{}, Cases: len(cases),
-		Rule: "fault scenarios on the real client over in-memory gRPC: (burst size 1..12) x (fault side) x (message index 0..burst) x (status class) x (Close | Reset+Connect+exchange) x (slow | fast Send); non-trivial = a fault that fires while at least one request is still to be queued or answered; distinct by (kind, burst, side, index, mode, slow, injection)"}
+		Rule: "fault scenarios on the real client over in-memory gRPC: (burst size 1..12) x (fault side) x (message index 0..burst) x (status class) x (Close | Reset+Connect+exchange) x (slow | fast Send); plus the server ending the RPC with status OK while 0..n requests are unanswered and the sender is idle, further requests queued afterwards (AwaitConverged before | after); non-trivial = a fault that fires while at least one request is still to be queued or answered (clean end: at least one unanswered and one further request); distinct by (kind, burst, side, index, mode, slow, injection)"}
 	var coq []string
 	distinct := map[string]bool{}
 	for i, c := range cases {
@@ -602,9 +645,12 @@ func runC14(args []string) error {
 		}
 		var o Outcome
 		var problem string
-		if c.Kind == "lockorder" {
+		switch c.Kind {
+		case "lockorder":
 			o, problem = run.runLockOrder(c)
-		} else {
+		case "end":
+			o, problem = run.runEnd(c)
+		default:
 			o, problem = run.runFault(c)
 		}
 		if problem != "" {
@@ -624,6 +670,17 @@ func runC14(args []string) error {
 		rep.Stats["await_"+o.Await]++
 		if c.Kind == "fault" && c.Side != "none" && c.K < len(c.Burst) {
 			distinct[caseKey(c)] = true
+		}
+		if c.Kind == "end" {
+			first, answered := c.endShape()
+			rep.Stats[fmt.Sprintf("end_unanswered_%d", min(first-answered, 3))]++
+			rep.Stats[fmt.Sprintf("end_further_%d", min(len(c.Burst)-first, 7))]++
+			if c.Early {
+				rep.Stats["end_await_already_running"]++
+			}
+			if first-answered >= 1 && len(c.Burst) > first {
+				distinct[caseKey(c)] = true
+			}
 		}
 		coq = append(coq, c.coq(o))
 		if i < 2 || i == len(cases)-1 {
